@@ -5,6 +5,8 @@ mod wire;
 
 use jmespath::ast::Ast;
 use jmespath::{Context, ErrorReason, Expression, JmespathError, Rcvar, Runtime, RuntimeError, Variable, DEFAULT_RUNTIME};
+use jmespath::functions::{ArgumentType, CustomFunction, Signature};
+use std::collections::HashMap;
 use std::io::{BufRead, Write};
 use std::panic::{catch_unwind, AssertUnwindSafe};
 use wire::*;
@@ -66,6 +68,178 @@ fn search_result(r: Result<Rcvar, JmespathError>) -> String {
     }
 }
 
+fn parse_argtype(t: &str) -> Option<ArgumentType> {
+    Some(match t {
+        "any" => ArgumentType::Any,
+        "null" => ArgumentType::Null,
+        "string" => ArgumentType::String,
+        "number" => ArgumentType::Number,
+        "bool" => ArgumentType::Bool,
+        "object" => ArgumentType::Object,
+        "array" => ArgumentType::Array,
+        "expref" => ArgumentType::Expref,
+        "an" => ArgumentType::TypedArray(Box::new(ArgumentType::Number)),
+        "as" => ArgumentType::TypedArray(Box::new(ArgumentType::String)),
+        _ => return None,
+    })
+}
+
+fn custom_fn(id: i64) -> Box<dyn Fn(&[Rcvar], &mut Context<'_>) -> Result<Rcvar, JmespathError> + Sync + Send> {
+    Box::new(move |args: &[Rcvar], _ctx: &mut Context<'_>| {
+        Ok(Rcvar::new(Variable::Array(vec![
+            Rcvar::new(Variable::Number(serde_json::Number::from(id))),
+            Rcvar::new(Variable::Array(args.to_vec())),
+        ])))
+    })
+}
+
+// Operation histories over runtimes and compiled expressions (C13, C15).
+// A runtime can be mutated until the first expression is compiled from it; it is then
+// leaked into a shared reference (the borrow checker forbids later mutation anyway).
+fn run_hist(ts: &mut Toks) -> Option<String> {
+    let mut open: HashMap<i64, Box<Runtime>> = HashMap::new();
+    let mut frozen: HashMap<i64, &'static Runtime> = HashMap::new();
+    let mut exprs: HashMap<i64, Expression<'static>> = HashMap::new();
+    let mut obs: Vec<String> = vec![];
+    let all: Vec<&str> = ts.t[ts.i..].to_vec();
+    for op in all.split(|t| *t == ";") {
+        let mut o = Toks { t: op.to_vec(), i: 0 };
+        let k = o.next()?;
+        match k {
+            "new" => {
+                let r: i64 = o.next()?.parse().ok()?;
+                frozen.remove(&r);
+                open.insert(r, Box::new(Runtime::new()));
+                obs.push("-".into());
+            }
+            "reg" => {
+                let r: i64 = o.next()?.parse().ok()?;
+                let name = parse_str(o.next()?)?;
+                let id: i64 = o.next()?.parse().ok()?;
+                let first = o.next()?;
+                let f: Box<dyn jmespath::functions::Function> = if first == "-" {
+                    Box::new(custom_fn(id))
+                } else {
+                    let mut inputs = vec![];
+                    loop {
+                        let t = o.next()?;
+                        if t == "/" {
+                            break;
+                        }
+                        inputs.push(parse_argtype(t)?);
+                    }
+                    let v = o.next()?;
+                    let variadic = if v == "_" { None } else { Some(parse_argtype(v)?) };
+                    Box::new(CustomFunction::new(Signature::new(inputs, variadic), custom_fn(id)))
+                };
+                match open.get_mut(&r) {
+                    Some(rt) => {
+                        rt.register_function(&name, f);
+                        obs.push("-".into())
+                    }
+                    None => obs.push("BAD".into()),
+                }
+            }
+            "dereg" => {
+                let r: i64 = o.next()?.parse().ok()?;
+                let name = parse_str(o.next()?)?;
+                match open.get_mut(&r) {
+                    Some(rt) => {
+                        rt.deregister_function(&name);
+                        obs.push("-".into())
+                    }
+                    None => obs.push("BAD".into()),
+                }
+            }
+            "regb" => {
+                let r: i64 = o.next()?.parse().ok()?;
+                match open.get_mut(&r) {
+                    Some(rt) => {
+                        rt.register_builtin_functions();
+                        obs.push("-".into())
+                    }
+                    None => obs.push("BAD".into()),
+                }
+            }
+            "get" => {
+                let r: i64 = o.next()?.parse().ok()?;
+                let name = parse_str(o.next()?)?;
+                let rt: Option<&Runtime> = if r == 0 {
+                    Some(&*DEFAULT_RUNTIME)
+                } else if let Some(rt) = open.get(&r) {
+                    Some(&**rt)
+                } else {
+                    frozen.get(&r).copied()
+                };
+                match rt {
+                    Some(rt) => obs.push(if rt.get_function(&name).is_some() { "t".into() } else { "f".into() }),
+                    None => obs.push("BAD".into()),
+                }
+            }
+            "compile" => {
+                let h: i64 = o.next()?.parse().ok()?;
+                let r: i64 = o.next()?.parse().ok()?;
+                let text = parse_str(o.next()?)?;
+                if r != 0 {
+                    if let Some(b) = open.remove(&r) {
+                        frozen.insert(r, Box::leak(b));
+                    }
+                }
+                let rt: Option<&'static Runtime> = if r == 0 { Some(&*DEFAULT_RUNTIME) } else { frozen.get(&r).copied() };
+                match rt {
+                    Some(rt) => match rt.compile(&text) {
+                        Ok(e) => {
+                            exprs.insert(h, e);
+                            obs.push("OK".into())
+                        }
+                        Err(e) => {
+                            exprs.remove(&h);
+                            obs.push(pr_err(&e, true))
+                        }
+                    },
+                    None => obs.push("BAD".into()),
+                }
+            }
+            "clone" => {
+                let h2: i64 = o.next()?.parse().ok()?;
+                let h: i64 = o.next()?.parse().ok()?;
+                match exprs.get(&h).cloned() {
+                    Some(e) => {
+                        exprs.insert(h2, e);
+                        obs.push("-".into())
+                    }
+                    None => obs.push("BAD".into()),
+                }
+            }
+            "drop" => {
+                let h: i64 = o.next()?.parse().ok()?;
+                exprs.remove(&h);
+                obs.push("-".into());
+            }
+            "search" => {
+                let h: i64 = o.next()?.parse().ok()?;
+                let d = rd_value(&mut o)?;
+                match exprs.get(&h) {
+                    Some(e) => {
+                        let shared = Rcvar::new(d);
+                        let before = format!("{:?}", shared);
+                        let r = e.search(shared.clone());
+                        let after = format!("{:?}", shared);
+                        if before != after {
+                            obs.push("MUTATED".into())
+                        } else {
+                            obs.push(search_result(r))
+                        }
+                    }
+                    None => obs.push("BAD".into()),
+                }
+            }
+            _ => return None,
+        }
+    }
+    Some(obs.join(" ; "))
+}
+
 fn run_case(line: &str) -> Option<String> {
     let mut ts = Toks::new(line);
     let kind = ts.next()?;
@@ -122,6 +296,7 @@ fn run_case(line: &str) -> Option<String> {
                 Err(e) => pr_err(&e, true),
             })
         }
+        "hist" => run_hist(&mut ts),
         "fn" => {
             // fn <offset> <name> <arg>* : evaluate a registered function on argument values
             let off: usize = ts.next()?.parse().ok()?;
